@@ -114,7 +114,9 @@ register('C11',
          'delete events spread over any number of flushes is the coalesced one (last tracked kind, insert-after-anything = UPDATE), '
          'unaffected by events of other entities; the predecessor is closed by C03. All sequences over insert/update/delete/'
          're-insert with all flush placements up to length 3 (quick) / 4 (thorough) are run on the real code as test inputs '
-         'and compared with the model and with the coalescing predicate after every flush.',
+         'and compared with the model and with the coalescing predicate after every flush. A key that changes class within one '
+         'transaction in a single-table hierarchy is judged on the observations alone (C11_O: Layer B gives an entity one class), '
+         'with the recorder invariant that a version row holds no value in a column its class does not map.',
          COMMON_NOTE + 'The clause "the row holds the state of the last flushed change" is decided by the C01 check (same model, same '
          'runs); savepoint-commit points are not generated (savepoints are C06). The machine theorems cover joined hierarchies (hier_consistent).',
          'Coq proof (automaton lemma by induction over the event list + inductive machine invariant) + enumerated and random histories replayed against the real tables',
